@@ -1,19 +1,28 @@
-"""C06 — parseAnchorName under deductive contract, PER PATH.
+"""C06 — parseAnchorName (and NamedAnchor.__init__ through it) under deductive contract, as string functions of the anchor name.
 
-  #unnumbered   every name (without newline) whose base — the name itself, or for a contextual name `*...` what is left of it after cutting at the
-                first '.' — does NOT end in a decimal digit: not numbered; mark iff the base starts with '_'; key = base without that prefix;
+The BASE of a name is the name itself, or for a contextual name `*...` what is left of it after cutting at the first '.'.
+  #unnumbered   the base does NOT end in a decimal digit: not numbered; mark iff the base starts with '_'; key = base without that prefix;
                 ValueError iff the base is exactly '_'; contextual iff the name starts with '*'; ignorable iff the key is non-empty and its
                 first character is not alphabetic.
-The names that DO end in a digit (`x_N`, bare `_N`, `top1`) go through `str.rstrip(<symbolic>)` (not modelled by the engine) and stay with the
-exhaustive enumeration of vcheck/hooks/c06.py (bounded).
+  #numbered     the base ends in a decimal digit; G = its maximal decimal suffix, P = what is in front of G.  If P ends in '_' (`key_N`, bare `_N`):
+                number = int(G), key = P without the separator, not a mark anchor, ValueError iff the base starts with '_' and that key is not
+                empty ("a mark anchor cannot be numbered").  Otherwise the digits belong to the name: not numbered, parsed like any other name.
+  #grammar      both as one contract (callers select ONE callee contract); also hands the assumed facts about G on to the callers.
+  NamedAnchor.__init__#grammar   the fields of the new anchor as those string functions of `name`; ValueError iff parseAnchorName raises or the
+                component number is < 1; AssertionError iff the base is empty.  (The first-wave contract of __init__ in contracts/c06.py goes
+                through a summary of parseAnchorName in opaque functions that is only enumerated; it stays, other contracts use its vocabulary.)
+All for names without a newline (`.` and `$` of the two regular expressions treat '\\n' specially).
 
-Assumed (library semantics, contract-local): `LIGA_NUM_RE.match(s)` for the pattern `.*?(\\d+)$` on a string without newline is None iff s is empty or
-its last character is not a decimal digit (`\\d` on str patterns == str.isdecimal of that character); `re.sub(r"\\..*", "", s)` is a function of s
-(named c06_cut_at_dot) that returns s unchanged when s has no '.'; `str.isalpha` / `isdecimal` are functions of the string.
+Assumed (library semantics, contract-local; enumerated over an alphabet by the hook part `parseAnchorName.library-model-facts`):
+`LIGA_NUM_RE.match(s)` (pattern `.*?(\\d+)$`) is None iff s is empty or its last character is not a decimal digit (`\\d` on str patterns ==
+str.isdecimal of that character); otherwise group(1) = c06_digits(s) is a non-empty suffix of s without '_'; `s.rstrip(group(1)) == s` without
+that suffix (rstrip removes the longest suffix made of characters of its argument: all characters of the maximal decimal suffix are decimal
+digits, the character in front of it is not); `int(<decimal digits>)` is a function of the string (c06_int); `re.sub(r"\\..*", "", s)` is a
+function of s (c06_cut) that returns s unchanged when s has no '.'; `str.isalpha` is a function of the string.
 """
 import z3
 
-from pyvc.api import BOOL, INT, STR, Const, Opt, Ref, Runtime, Tuple, Union, cls, contract
+from pyvc.api import BOOL, CONTRACTS, INT, STR, Const, Opt, Ref, Runtime, Tuple, Union, cls, contract
 from pyvc.core import Unsupported, Val, lift
 from pyvc.symex import FuncRef
 
@@ -36,6 +45,21 @@ def c06_ends_in_decimal(s):
     return len(s) > 0 and s[-1].isdecimal()
 
 
+@specfn(STR, opaque=True, s=STR)
+def c06_digits(s):
+    """group(1) of LIGA_NUM_RE (`.*?(\\d+)$`) on s: the maximal suffix of decimal digits ('' if there is none): uninterpreted in the logic"""
+    import re
+
+    m = re.match(r".*?(\d+)$", s)
+    return m.group(1) if m else ""
+
+
+@specfn(INT, opaque=True, s=STR)
+def c06_int(s):
+    """int(s) for a string of decimal digits: uninterpreted in the logic"""
+    return int(s)
+
+
 cls("C06_Match", fields={"g1": STR}, methods={"group": lambda ex, st, self, args, kwargs, node: ex.read_field(st, self, "g1")},
     notes="a re.Match object of LIGA_NUM_RE: group(1)")
 
@@ -45,6 +69,17 @@ def _match(ex, st, args, kwargs, node):
     t = Opt(Ref("C06_Match"))
     m = ex.new_object(st, "C06_Match")
     ends = lift(ex.apply_spec(SPECFNS["c06_ends_in_decimal"], [v], st, node))
+    # group(1): the maximal decimal suffix — non-empty and a suffix of the subject when there is a match
+    g = lift(ex.apply_spec(SPECFNS["c06_digits"], [v], st, node))
+    sv = lift(v, STR)
+    ex.write_field(st, m, "g1", Val(STR, g), node)
+    # (and '_' is not a decimal digit)
+    st.assume(z3.Implies(ends, z3.And(z3.Length(g) >= 1, z3.SuffixOf(g, sv), z3.Not(z3.Contains(g, z3.StringVal("_"))))))
+    # str.rstrip(chars) removes the longest suffix made of characters of `chars`; for chars = the maximal decimal suffix g of s that is g itself
+    # (every character of g is one of g's; the character before g is no decimal digit, so none of g's).  Assumed here on these very terms,
+    # enumerated over an alphabet by the hook (`parseAnchorName.rstrip-lemma`).
+    rstrip2 = z3.Function("str_rstrip2", z3.StringSort(), z3.StringSort(), z3.StringSort())
+    st.assume(z3.Implies(ends, rstrip2(sv, g) == z3.SubString(sv, 0, z3.Length(sv) - z3.Length(g))))
     return Val(t, z3.If(ends, t.sort().some(m.term), t.sort().nil))
 
 
@@ -55,6 +90,14 @@ def _sub(ex, st, args, kwargs, node):
     r = ex.apply_spec(SPECFNS["c06_cut"], [v], st, node)
     st.assume(z3.Implies(z3.Not(z3.Contains(lift(v, STR), z3.StringVal("."))), lift(r) == lift(v, STR)))
     return r
+
+
+def _int(ex, st, args, kwargs, node):
+    """int(<decimal string>): the named function c06_int"""
+    (v,) = args
+    if kwargs or v.ty != STR:
+        raise Unsupported("int() of something else than a str", node)
+    return ex.apply_spec(SPECFNS["c06_int"], [v], st, node)
 
 
 class _LigaNumRE:
@@ -69,9 +112,9 @@ def _base(n):
     return f"(c06_cut({n}[1:]) if {n}[0] == '*' else {n})"
 
 
-# WAITING for engine request R19 (notes/C06.requests.md): `isIgnorable = key and not key[0].isalpha()` is a VALUE of type str-or-bool
-# ("cannot merge values of type Bool and Str"); the contract below is complete otherwise.
-REGISTERED = False
+# (engine requests R19 — `key and not key[0].isalpha()` is a VALUE of type str-or-bool — and R18 — `str.rstrip(<symbolic>)` as the uninterpreted
+# function str_rstrip2 — are done: registered)
+REGISTERED = True
 PAN = W + "parseAnchorName"
 _B = _base("anchorName")
 contract(
@@ -82,13 +125,160 @@ contract(
     returns=Tuple(BOOL, STR, Opt(INT), BOOL, Union(STR, BOOL)),
     globals={"LIGA_NUM_RE": _LigaNumRE, "re": _Re},
     models={"c06parse.LIGA_NUM_RE.match": _match, "c06parse.re.sub": _sub},
-    requires=["len(anchorName) > 0", f"not c06_ends_in_decimal({_B})"],
+    # (no newline: `.` and `$` of the two regular expressions treat '\n' specially, the models above do not describe that)
+    requires=["len(anchorName) > 0", "'\\n' not in anchorName", f"not c06_ends_in_decimal({_B})"],
     ensures={
         "not-numbered": "result[2] is None",
         "contextual-iff-star": "result[3] == (anchorName[0] == '*')",
         "mark-iff-underscore-prefix": f"result[0] == {_B}.startswith('_')",
         "key": f"result[1] == ({_B}[1:] if {_B}.startswith('_') else {_B})",
+        # ('' — falsy — for an empty key, else a bool)
+        "ignorable-iff-key-starts-with-a-non-letter": "iff(result[4], len(result[1]) > 0 and not result[1][0].isalpha())",
     },
     raises={"ValueError": f"{_B} == '_'"},
     canaries={"always-mark": "result[0]", "never-contextual": "not result[3]"},
 )
+
+
+# The names whose base DOES end in a decimal digit.  G = the maximal decimal suffix, P = what is in front of it.
+_G = f"c06_digits({_B})"
+_P = f"{_B}[:len({_B}) - len({_G})]"
+_LIGA = f"{_P}.endswith('_')"  # a ligature-component name `key_N` (or the bare `_N`)
+_K = f"{_P}[:len({_P}) - 1]"
+contract(
+    PAN,
+    name="numbered",
+    props=["C06"] if REGISTERED else [],
+    params={"anchorName": STR, "markPrefix": Const("_"), "ligaSeparator": Const("_"), "ignoreRE": Const(None)},
+    returns=Tuple(BOOL, STR, Opt(INT), BOOL, Union(STR, BOOL)),
+    globals={"LIGA_NUM_RE": _LigaNumRE, "re": _Re},
+    models={"c06parse.LIGA_NUM_RE.match": _match, "c06parse.re.sub": _sub, "builtins.int": _int},
+    requires=["len(anchorName) > 0", "'\\n' not in anchorName", f"c06_ends_in_decimal({_B})"],
+    ensures={
+        "contextual-iff-star": "result[3] == (anchorName[0] == '*')",
+        # `key_N`: component number N, key without the separator, never a mark anchor (the bare `_N` has the empty key)
+        "component-number": f"implies({_LIGA}, result[2] == c06_int({_G}) and result[1] == {_K} and not result[0])",
+        # digits that do not follow the separator belong to the name: not numbered, parsed like any other name
+        "digits-without-separator-are-part-of-the-key": f"implies(not {_LIGA}, result[2] is None and result[0] == {_B}.startswith('_') and result[1] == ({_B}[1:] if {_B}.startswith('_') else {_B}))",
+        "ignorable-iff-key-starts-with-a-non-letter": "iff(result[4], len(result[1]) > 0 and not result[1][0].isalpha())",
+    },
+    # a mark anchor cannot be numbered
+    raises={"ValueError": f"{_LIGA} and {_B}.startswith('_') and len({_P}) > 1"},
+    canaries={"always-numbered": "result[2] is not None", "never-numbered": "result[2] is None"},
+)
+
+# Both halves as ONE contract (for callers: `calls=` selects one key per callee) — every clause guarded by "the base ends / does not end in a decimal digit".
+_ENDS = f"c06_ends_in_decimal({_B})"
+_U, _N = CONTRACTS[PAN + "#unnumbered"], CONTRACTS[PAN + "#numbered"]
+contract(
+    PAN,
+    name="grammar",
+    props=["C06"] if REGISTERED else [],
+    params=dict(_N.params),
+    returns=_N.returns,
+    globals={"LIGA_NUM_RE": _LigaNumRE, "re": _Re},
+    models={"c06parse.LIGA_NUM_RE.match": _match, "c06parse.re.sub": _sub, "builtins.int": _int},
+    requires=["len(anchorName) > 0", "'\\n' not in anchorName"],
+    ensures={
+        **{"plain-" + k: f"implies(not {_ENDS}, {v})" for k, v in _U.ensures.items() if k not in ("contextual-iff-star", "ignorable-iff-key-starts-with-a-non-letter")},
+        **{"digits-" + k: f"implies({_ENDS}, {v})" for k, v in _N.ensures.items() if k not in ("contextual-iff-star", "ignorable-iff-key-starts-with-a-non-letter")},
+        "contextual-iff-star": _N.ensures["contextual-iff-star"],
+        "ignorable-iff-key-starts-with-a-non-letter": _N.ensures["ignorable-iff-key-starts-with-a-non-letter"],
+        # (what the model of LIGA_NUM_RE.match assumes about the two named functions, handed on to the callers)
+        "decimal-suffix": f"implies({_ENDS}, len({_G}) >= 1 and {_B}.endswith({_G}) and '_' not in {_G})",
+    },
+    raises={"ValueError": f"(not {_ENDS} and ({_U.raises['ValueError']})) or ({_ENDS} and ({_N.raises['ValueError']}))"},
+    canaries={"always-numbered": "result[2] is not None", "never-mark": "not result[0]"},
+)
+
+# NamedAnchor.__init__ against the grammar contract of the REAL parseAnchorName (the first-wave contract of __init__, contracts/c06.py, goes through a summary
+# in opaque functions that is only enumerated): the fields of the new anchor as string functions of its name.
+NAI = W + "NamedAnchor.__init__"
+_I0 = CONTRACTS[NAI]
+_NB = _base("name")
+_NG = f"c06_digits({_NB})"
+_NP = f"{_NB}[:len({_NB}) - len({_NG})]"
+_NENDS = f"c06_ends_in_decimal({_NB})"
+_NLIGA = f"({_NENDS} and {_NP}.endswith('_'))"
+_NPARSE_ERR = f"((not {_NENDS} and {_NB} == '_') or ({_NLIGA} and {_NB}.startswith('_') and len({_NP}) > 1))"
+contract(
+    NAI,
+    name="grammar",
+    props=["C06"] if REGISTERED else [],
+    params=dict(_I0.params),
+    requires=["len(name) > 0", "'\\n' not in name"],
+    modifies=list(_I0.modifies),
+    calls={PAN: PAN + "#grammar"},
+    ensures={
+        "position": "self.name == name and self.x == x and self.y == y and self.markClass is None",
+        "contextual-iff-star": "self.isContextual == (name[0] == '*')",
+        # `key_N` (N >= 1): component N of the ligature, key without the separator; never a mark anchor
+        "component-anchor": f"implies({_NLIGA}, self.number == c06_int({_NG}) and self.number >= 1 and self.key == {_NP}[:len({_NP}) - 1] and not self.isMark)",
+        # any other name: not numbered; a mark anchor iff it starts with '_'; the key is the name without that prefix and is not empty
+        "plain-anchor": f"implies(not {_NLIGA}, self.number is None and self.isMark == {_NB}.startswith('_') and self.key == ({_NB}[1:] if {_NB}.startswith('_') else {_NB}) and self.key != '')",
+    },
+    raises={
+        "ValueError": f"{_NPARSE_ERR} or ({_NLIGA} and c06_int({_NG}) < 1)",
+        "AssertionError": f"not {_NENDS} and {_NB} == ''",
+    },
+    canaries={"always-mark": "self.isMark", "never-numbered": "self.number is None"},
+)
+
+# ---- run-time side: names over an alphabet with the separators, digits (inside, not at the end of the base), non-letters and non-ASCII letters ----
+def _name_cases(rng, n):
+    import re
+
+    alpha = ["_", "*", ".", "a", "B", "é", "1", "-", "٣", "top", "_top", " "]
+    out = ["_", "*", "*_", "*_top.alt", "_top", "top", "a.b", "*a.1", "-x", "1a", "*.x", "é"]
+    seen = set(out)
+    tries = 0
+    while len(out) < n and tries < 50 * n:
+        tries += 1
+        s = "".join(rng.choice(alpha) for _ in range(rng.randint(1, 5)))
+        base = re.sub(r"\..*", "", s[1:]) if s[0] == "*" else s
+        if s in seen or "\n" in s or (len(base) > 0 and base[-1].isdecimal()):
+            continue  # (names whose base ends in a decimal digit: the numbered paths, bounded — vcheck/hooks/c06.py)
+        seen.add(s)
+        out.append(s)
+    return [{"name": s} for s in out[:n]]
+
+
+from pyvc.api import CONTRACTS  # noqa: E402
+
+
+def _numbered_cases(rng, n):
+    import re
+
+    alpha = ["_", "*", ".", "a", "B", "é", "1", "0", "2", "-", "٣", "top", "_top", " "]
+    out = ["top_1", "_1", "_top_1", "top1", "*top_2.alt", "a_01", "a__1", "1", "_12", "a_1_2", "*_3", "*_a_3.x", "__1", "a_٣", "_٣", "é_10", "*1", "-_2", "x_0"]
+    seen = set(out)
+    tries = 0
+    while len(out) < n and tries < 50 * n:
+        tries += 1
+        s = "".join(rng.choice(alpha) for _ in range(rng.randint(1, 6)))
+        base = re.sub(r"\..*", "", s[1:]) if s[0] == "*" else s
+        if s in seen or not (len(base) > 0 and base[-1].isdecimal()):
+            continue
+        seen.add(s)
+        out.append(s)
+    return [{"name": s} for s in out[:n]]
+
+
+CONTRACTS[PAN + "#numbered"].runtime = Runtime(_numbered_cases, lambda d: {"anchorName": d["name"]}, call=lambda fn, a: fn(a["anchorName"]))
+
+CONTRACTS[PAN + "#unnumbered"].runtime = Runtime(_name_cases, lambda d: {"anchorName": d["name"]}, call=lambda fn, a: fn(a["anchorName"]))
+
+
+def _init_cases(rng, n):
+    a, b = _name_cases(rng, n // 2 + 1), _numbered_cases(rng, n // 2 + 1)
+    return [x for pair in zip(a, b) for x in pair][:n]
+
+
+def _init_build(d):
+    from ufo2ft.featureWriters.markFeatureWriter import NamedAnchor
+
+    return {"self": NamedAnchor.__new__(NamedAnchor), "name": d["name"], "x": 10, "y": -20, "libData": None}
+
+
+CONTRACTS[PAN + "#grammar"].runtime = Runtime(_init_cases, lambda d: {"anchorName": d["name"]}, call=lambda fn, a: fn(a["anchorName"]))
+CONTRACTS[NAI + "#grammar"].runtime = Runtime(_init_cases, _init_build, call=lambda fn, a: fn(a["self"], a["name"], a["x"], a["y"], libData=a["libData"]))
